@@ -5,6 +5,7 @@ Model/); every `theorem` of this file is an obligation counted by ./check C20.
 -/
 import EzdxfVerif.Model.Text
 import EzdxfVerif.Gen.TextTables
+import EzdxfVerif.Lemmas.Text
 
 namespace EzdxfVerif.Props.C20
 open EzdxfVerif.Text
@@ -290,6 +291,23 @@ theorem plain_total (sp : Special) (s : Str) : ∃ ls, plainMText sp s = .ok ls 
   | .ok ts => decide (ts = [.stack ['a'] [] []]) | _ => false)
 #guard (match parse Gen.TextTables.special "x\\A".toList with
   | .ok ts => decide (ts = [.word ['x']]) | _ => false)
+
+/-! ## decoding plain words: both decoders return exactly the words (base case of fast == slow) -/
+
+/-- content made of plain characters (letters, digits, blanks, non-ASCII; no control characters, none of
+    `\ { } % ^`) is returned unchanged by `fast_plain_mtext` -/
+theorem fast_plain_identity (sp : Special) (s : Str) (h : ∀ c ∈ s, isPlain c = true) :
+    fastPlainMText sp s = s := Text.fast_plain_identity sp s h
+
+/-- ... and by `plain_mtext` (one paragraph), so the two decoders agree on plain content -/
+theorem plain_identity (sp : Special) (s : Str) (h : ∀ c ∈ s, isPlain c = true) (hne : s ≠ []) :
+    plainMText sp s = .ok [s] := Text.plain_identity sp s h hne
+
+theorem fast_eq_slow_plain (sp : Special) (s : Str) (h : ∀ c ∈ s, isPlain c = true) (hne : s ≠ []) :
+    plainMText sp s = .ok [fastPlainMText sp s] := by
+  rw [Text.fast_plain_identity sp s h]; exact Text.plain_identity sp s h hne
+
+example : ∀ c ∈ "Hello wörld 42".toList, isPlain c = true := by decide
 
 /-! ## ties of the hand-written model to the generated tables (regenerated from source each run) -/
 
